@@ -16,9 +16,13 @@
 (***************************************************************************)
 EXTENDS Integers, Sequences, FiniteSets, TLC, Json
 
-CONSTANTS Procs, Slots, Vers, Keys, Stores, MaxOps, FixD6, FixD13, FixD5c, FixD20, Gen
+CONSTANTS Procs, Slots, Vers, Keys, Stores, MaxOps, FixD6, FixD13, FixD5c, FixD20, Gen,
+          Aliased,   \* Memory objects (elements of Stores) that are another spelling of the directory of store 1 (relative path, symlink)
+          FixD21     \* TRUE: the writers table is keyed by the real directory; FALSE: by the spelling (D21)
 
 Objs == Procs \X Slots
+Ph(st) == IF st \in Aliased THEN 1 ELSE st          \* the directory behind a Memory object
+Wk(st) == IF FixD21 THEN Ph(st) ELSE st              \* key of _FUNCTION_CODE_WRITERS
 
 VARIABLES
   ocode,    \* [Objs -> Vers \cup {0}]   code version run by the object, 0 = not defined
@@ -80,24 +84,24 @@ Call(o, st, k) ==
       stale == cid[o][st] # 0 /\ cid[o][st] # v
       cid2 == IF cid[o][st] = 0 THEN v ELSE IF stale /\ FixD13 THEN v ELSE cid[o][st]
       s == IF src[o][st] = 0 \/ stale THEN v ELSE src[o][st]
-      fast == fh[o] = v /\ (FixD6 => writer[p][st] = <<o, v>>)
-      slowValid == code[st] = s
+      fast == fh[o] = v /\ (FixD6 => writer[p][Wk(st)] = <<o, v>>)
+      slowValid == code[Ph(st)] = s
       valid == fast \/ slowValid
-      wipe == ~valid /\ (code[st] # 0 \/ FixD5c)
-      ent2 == IF wipe THEN ZK ELSE entries[st]
-      hit == valid /\ entries[st][k] # 0
+      wipe == ~valid /\ (code[Ph(st)] # 0 \/ FixD5c)
+      ent2 == IF wipe THEN ZK ELSE entries[Ph(st)]
+      hit == valid /\ entries[Ph(st)][k] # 0
   IN
   /\ Step /\ v # 0
   /\ cid' = [cid EXCEPT ![o][st] = cid2] /\ src' = [src EXCEPT ![o][st] = s]
   /\ IF valid
      THEN UNCHANGED <<code, fh, writer>>
-     ELSE /\ code' = [code EXCEPT ![st] = s] /\ fh' = [fh EXCEPT ![o] = v] /\ writer' = [writer EXCEPT ![p][st] = <<o, v>>]
-  /\ entries' = IF hit THEN entries ELSE [entries EXCEPT ![st] = [ent2 EXCEPT ![k] = v]]
-  /\ resp' = IF hit THEN <<entries[st][k], FALSE, v>> ELSE <<v, TRUE, v>>
-  /\ must' = [must EXCEPT ![st] =
-                IF wipe \/ (\E kk \in Keys : must[st][kk] # 0 /\ must[st][kk] # v)
+     ELSE /\ code' = [code EXCEPT ![Ph(st)] = s] /\ fh' = [fh EXCEPT ![o] = v] /\ writer' = [writer EXCEPT ![p][Wk(st)] = <<o, v>>]
+  /\ entries' = IF hit THEN entries ELSE [entries EXCEPT ![Ph(st)] = [ent2 EXCEPT ![k] = v]]
+  /\ resp' = IF hit THEN <<entries[Ph(st)][k], FALSE, v>> ELSE <<v, TRUE, v>>
+  /\ must' = [must EXCEPT ![Ph(st)] =
+                IF wipe \/ (\E kk \in Keys : must[Ph(st)][kk] # 0 /\ must[Ph(st)][kk] # v)
                 THEN [kk \in Keys |-> IF kk = k THEN v ELSE 0]
-                ELSE [must[st] EXCEPT ![k] = v]]
+                ELSE [must[Ph(st)] EXCEPT ![k] = v]]
   /\ Log([op |-> "call", p |-> p, i |-> o[2], s |-> st, k |-> k])
   /\ UNCHANGED ocode
 
@@ -109,36 +113,36 @@ Force(o, st, k) ==
       stale == cid[o][st] # 0 /\ cid[o][st] # v
       cid2 == IF cid[o][st] = 0 THEN v ELSE IF stale /\ FixD13 THEN v ELSE cid[o][st]
       s == IF src[o][st] = 0 \/ stale THEN v ELSE src[o][st]
-      fast == fh[o] = v /\ (FixD6 => writer[p][st] = <<o, v>>)
-      valid == ~FixD20 \/ fast \/ code[st] = s
-      wipe == ~valid /\ (code[st] # 0 \/ FixD5c)
-      ent2 == IF wipe THEN ZK ELSE entries[st]
+      fast == fh[o] = v /\ (FixD6 => writer[p][Wk(st)] = <<o, v>>)
+      valid == ~FixD20 \/ fast \/ code[Ph(st)] = s
+      wipe == ~valid /\ (code[Ph(st)] # 0 \/ FixD5c)
+      ent2 == IF wipe THEN ZK ELSE entries[Ph(st)]
   IN
   /\ Step /\ v # 0
   /\ IF FixD20 THEN cid' = [cid EXCEPT ![o][st] = cid2] /\ src' = [src EXCEPT ![o][st] = s] ELSE UNCHANGED <<cid, src>>
   /\ IF valid
      THEN UNCHANGED <<code, fh, writer>>
-     ELSE /\ code' = [code EXCEPT ![st] = s] /\ fh' = [fh EXCEPT ![o] = v] /\ writer' = [writer EXCEPT ![p][st] = <<o, v>>]
-  /\ entries' = [entries EXCEPT ![st] = [ent2 EXCEPT ![k] = v]]
+     ELSE /\ code' = [code EXCEPT ![Ph(st)] = s] /\ fh' = [fh EXCEPT ![o] = v] /\ writer' = [writer EXCEPT ![p][Wk(st)] = <<o, v>>]
+  /\ entries' = [entries EXCEPT ![Ph(st)] = [ent2 EXCEPT ![k] = v]]
   /\ resp' = <<v, TRUE, v>>
-  /\ must' = [must EXCEPT ![st] =
-                IF wipe \/ (\E kk \in Keys : must[st][kk] # 0 /\ must[st][kk] # v)
+  /\ must' = [must EXCEPT ![Ph(st)] =
+                IF wipe \/ (\E kk \in Keys : must[Ph(st)][kk] # 0 /\ must[Ph(st)][kk] # v)
                 THEN [kk \in Keys |-> IF kk = k THEN v ELSE 0]
-                ELSE [must[st] EXCEPT ![k] = v]]
+                ELSE [must[Ph(st)] EXCEPT ![k] = v]]
   /\ Log([op |-> "force", p |-> p, i |-> o[2], s |-> st, k |-> k])
   /\ UNCHANGED ocode
 
 ClearFunc(o, st) ==
   /\ Step /\ ocode[o] # 0
-  /\ entries' = [entries EXCEPT ![st] = ZK] /\ must' = [must EXCEPT ![st] = ZK]
-  /\ code' = [code EXCEPT ![st] = ocode[o]] /\ fh' = [fh EXCEPT ![o] = ocode[o]] /\ writer' = [writer EXCEPT ![o[1]][st] = <<o, ocode[o]>>]
+  /\ entries' = [entries EXCEPT ![Ph(st)] = ZK] /\ must' = [must EXCEPT ![Ph(st)] = ZK]
+  /\ code' = [code EXCEPT ![Ph(st)] = ocode[o]] /\ fh' = [fh EXCEPT ![o] = ocode[o]] /\ writer' = [writer EXCEPT ![o[1]][Wk(st)] = <<o, ocode[o]>>]
   /\ src' = [src EXCEPT ![o][st] = ocode[o]] /\ cid' = [cid EXCEPT ![o][st] = ocode[o]]
   /\ Log([op |-> "clear", p |-> o[1], i |-> o[2], s |-> st])
   /\ UNCHANGED <<ocode, resp>>
 
 Evict(st, k) ==
-  /\ Step /\ entries[st][k] # 0
-  /\ entries' = [entries EXCEPT ![st][k] = 0] /\ must' = [must EXCEPT ![st][k] = 0]
+  /\ Step /\ st = Ph(st) /\ entries[Ph(st)][k] # 0
+  /\ entries' = [entries EXCEPT ![Ph(st)][k] = 0] /\ must' = [must EXCEPT ![Ph(st)][k] = 0]
   /\ Log([op |-> "evict", s |-> st, k |-> k])
   /\ UNCHANGED <<ocode, code, fh, writer, src, cid, resp>>
 
@@ -158,7 +162,7 @@ ValueCorrect == resp[1] = resp[3]
 \* (checked as an action property: the ghost `must` before the call decides)
 HitWhenDue ==
   [][\A o \in Objs, st \in Stores, k \in Keys :
-       (Call(o, st, k) /\ must[st][k] = ocode[o] /\ must[st][k] # 0) => resp'[2] = FALSE]_vars
+       (Call(o, st, k) /\ must[Ph(st)][k] = ocode[o] /\ must[Ph(st)][k] # 0) => resp'[2] = FALSE]_vars
 
 \* behaviour generation: print the history of every behaviour of maximal length
 Emit == (Gen /\ nops = MaxOps) => PrintT(ToJson(hist))
